@@ -557,6 +557,12 @@ impl StdBroker {
                         return;
                     }
                     let st = self.hs.after_open.clone();
+                    // a script that closes the connection right behind OpenOk says nothing after it
+                    if let Stage::Frames(fs, _) = &st {
+                        if fs.iter().any(|f| matches!(f, AMQPFrame::Method(0, AMQPClass::Connection(connection::AMQPMethod::Close(_))))) {
+                            self.server_closed = true;
+                        }
+                    }
                     Self::stage_out(&st, vec![AMQPFrame::Method(0, AMQPClass::Connection(connection::AMQPMethod::OpenOk(connection::OpenOk { known_hosts: String::new() })))], out);
                 }
                 AMQPFrame::Method(0, AMQPClass::Connection(connection::AMQPMethod::CloseOk(_))) => {
